@@ -325,3 +325,208 @@ def validate_url_error_embedding_url_is_redacted(budget: float, replay=None) -> 
 @task(q=60, t=600, engine="sx", encoded=[xf._validate_url, up.parse_qsl], bound=BOUNDS + "; message = user, password and first query value spelled out; reduced template set: https, user absent / 1 char / maximal, port and path present, no fragment", stubs=_STUBS)
 def validate_url_error_embedding_components_is_redacted(budget: float, replay=None) -> dict:
     return _run(budget, [2], replay, mode="components")
+
+
+# ---------------------------------------------------------------------------
+# bounded-fetch half (engine xh): the probe + single-GET path of _fetch_with_probe, driven without
+# an event loop against a scripted in-memory origin (fault grammar: probe status, declared vs
+# delivered length, chunking, redirect chains, validator-rejected redirect targets)
+# ---------------------------------------------------------------------------
+
+from engine.api import HarnessModelError, cond  # noqa: E402
+
+_BASE = "https://origin.example/object"
+_BMAX = pick(9, 16)
+_CMAX = pick(3, 4)
+
+
+def _drive_coro(coro):  # noqa: ANN001, ANN201
+    """Run a coroutine whose awaits never really suspend (every awaitable here is scripted)."""
+    try:
+        coro.send(None)
+    except StopIteration as stop:
+        return stop.value
+    coro.close()
+    raise HarnessModelError("the fetch awaited something outside the scripted origin (event loop needed)")
+
+
+class _Headers:
+    def __init__(self, items: list) -> None:
+        self.items = items
+
+    def get(self, key: str, default=None):  # noqa: ANN001, ANN201
+        for k, v in self.items:
+            if k == key:
+                return v
+        return default
+
+
+class _OContent:
+    """Body stream of the scripted origin; counts what the client pulled."""
+
+    def __init__(self, origin: "_Origin", size: int, chunk: int) -> None:
+        self.origin, self.remaining, self.chunk = origin, size, chunk
+
+    async def read(self, n: int = -1) -> bytes:
+        if n is None or n < 0:
+            n = self.remaining
+        n = min(n, self.remaining)
+        self.remaining -= n
+        self.origin.pulled += n
+        return b"\x00" * n
+
+    async def iter_chunked(self, n: int):  # noqa: ANN201
+        while True:
+            chunk = await self.read(min(n, self.chunk))
+            if not chunk:
+                return
+            yield chunk
+
+
+class _OReqInfo:
+    headers: dict = {}
+
+
+class _OResp:
+    reason = "scripted"
+    request_info = _OReqInfo()
+
+    def __init__(self, origin: "_Origin", method: str, status: int, headers: list, size: int) -> None:
+        self.method, self.status, self.headers = method, status, _Headers(headers)
+        self.content = _OContent(origin, size, origin.chunk)
+
+    async def read(self) -> bytes:  # aiohttp.ClientResponse.read(): the whole body in one go
+        return await self.content.read(-1)
+
+    def release(self) -> None:
+        pass
+
+
+class _Origin:
+    """aiohttp.ClientSession stand-in.  URL i of a redirect chain is _BASE + '?hop=i'."""
+
+    def __init__(self, head_ok: bool, declared, delivered: int, chunk: int, head_hops: int, get_hops: int) -> None:  # noqa: ANN001
+        self.head_ok, self.declared, self.delivered, self.chunk = head_ok, declared, delivered, chunk
+        self.hops = {"HEAD": head_hops, "GET": get_hops}
+        self.pulled = 0
+        self.requested: list = []
+
+    def _hop_of(self, url: str) -> int:
+        if url == _BASE:
+            return 0
+        for i in range(1, 6):
+            if url == _BASE + "?hop=" + str(i):
+                return i
+        raise HarnessModelError(f"request to an URL the origin never named: {url!r}")
+
+    def _answer(self, method: str, url: str) -> _OResp:
+        i = self._hop_of(url)
+        self.requested.append((method, i))
+        if i < self.hops[method]:
+            return _OResp(self, method, 302, [("Location", "/object?hop=" + str(i + 1))], 0)
+        if method == "HEAD":
+            if not self.head_ok:
+                return _OResp(self, method, 405, [], 0)
+            hdrs = [] if self.declared is None else [("Content-Length", str(self.declared))]
+            return _OResp(self, method, 200, hdrs, 0)
+        return _OResp(self, method, 200, [], self.delivered)
+
+    async def head(self, url: str, *, headers=None, allow_redirects: bool = False) -> _OResp:  # noqa: ANN001
+        return self._answer("HEAD", url)
+
+    async def get(self, url: str, *, headers=None, allow_redirects: bool = False) -> _OResp:  # noqa: ANN001
+        return self._answer("GET", url)
+
+
+class _Cfg:
+    """FetchConfig stand-in: the attributes the probe / single-GET path reads."""
+
+    parallel_threshold_bytes = 1 << 40  # the parallel range path needs an event loop: kept out of reach
+    max_decompressed_bytes = None
+
+    def __init__(self, max_fetch_bytes: int, max_redirects: int) -> None:
+        self.max_fetch_bytes, self.max_redirects = max_fetch_bytes, max_redirects
+
+    def __getattr__(self, name: str):
+        raise HarnessModelError(f"FetchConfig.{name} is not modelled")
+
+
+def _fetch_scenario(a: dict):  # noqa: ANN201
+    origin = _Origin(a["head_ok"], a["declared"] if a["has_cl"] else None, a["delivered"], a["chunk"], a["head_hops"], a["get_hops"])
+    cfg = _Cfg(a["cap"], a["max_redirects"])
+    bad = a["bad_hop"]
+
+    def validator(url: str) -> None:
+        if bad >= 0 and origin._hop_of(url) == bad:
+            raise ValueError("target not allowed")
+
+    err = None
+    data = None
+    try:
+        data = _drive_coro(xf._fetch_with_probe(_BASE, cfg, origin, validator))  # type: ignore[arg-type]
+    except HarnessModelError:
+        raise
+    except Exception as e:  # noqa: BLE001
+        err = e
+    return origin, data, err
+
+
+def _fetch_verdict(a: dict) -> str | None:
+    """None when the run respects the property, else what it broke."""
+    origin, data, err = _fetch_scenario(a)
+    cap, chunk = a["cap"], a["chunk"]
+    if origin.pulled > cap + chunk:
+        return f"pulled {origin.pulled} body bytes from the origin with max_fetch_bytes={cap} (chunks of {chunk}): more than the cap plus one chunk"
+    for method, hop in origin.requested:
+        if hop == a["bad_hop"]:
+            return f"sent {method} to redirect target #{hop}, which the url_validator rejects"
+        if hop > a["max_redirects"]:
+            return f"followed {hop} redirects with max_redirects={a['max_redirects']}"
+    if err is None:
+        if data != b"\x00" * a["delivered"]:
+            return f"returned {len(data)} bytes, the object has {a['delivered']}"
+        if a["delivered"] > cap:
+            return f"returned an object of {a['delivered']} bytes with max_fetch_bytes={cap}"
+    return None
+
+
+def _replay_fetch(a: dict) -> str | None:
+    """The same scripted origin through asyncio.run on the unmodified function (a real event loop)."""
+    import asyncio
+
+    saved = globals()["_drive_coro"]
+    globals()["_drive_coro"] = lambda coro: asyncio.run(coro)
+    try:
+        return _fetch_verdict(a)
+    finally:
+        globals()["_drive_coro"] = saved
+
+
+_F_ENC = [xf._fetch_with_probe, xf._head_probe, xf._request_following_redirects, xf._read_response_body]
+_F_STUBS = ["aiohttp session := scripted in-memory origin (HEAD ok|405, declared Content-Length vs delivered length, chunk size, redirect chains)", "FetchConfig := attribute bag; parallel_threshold out of reach", "url_validator := rejects one redirect target"]
+
+
+@cond(q=60, t=300, encoded=_F_ENC, stubs=_F_STUBS,
+      bound="HEAD ok|405; declared Content-Length absent | 0..%d; delivered body 0..%d bytes in origin chunks of 1..%d; max_fetch_bytes 0..%d; no redirects" % (_BMAX, _BMAX, pick(3, 4), _BMAX),
+      replay=_replay_fetch, signature=lambda a, c: "C31:fetch:single-get-reads-past-max-fetch-bytes")
+def single_get_never_reads_past_the_cap(head_ok: bool, has_cl: bool, declared: int, delivered: int, chunk: int, cap: int) -> bool:
+    """
+    pre: 0 <= declared <= _BMAX and 0 <= delivered <= _BMAX and 0 <= cap <= _BMAX and 1 <= chunk <= _CMAX
+    post: _
+    """
+    a = {"head_ok": head_ok, "has_cl": has_cl, "declared": declared, "delivered": delivered, "chunk": chunk, "cap": cap,
+         "head_hops": 0, "get_hops": 0, "max_redirects": 5, "bad_hop": -1}
+    return _fetch_verdict(a) is None
+
+
+@cond(q=60, t=300, encoded=_F_ENC + [xf._validate_url], stubs=_F_STUBS,
+      bound="HEAD and GET redirect chains of 0..3 hops, max_redirects 0..2, url_validator rejecting none or one of targets 0..3; honest 2-byte object",
+      replay=_replay_fetch, signature=lambda a, c: "C31:fetch:redirects-unbounded-or-unvalidated")
+def redirects_are_bounded_and_validated(head_ok: bool, head_hops: int, get_hops: int, max_redirects: int, bad_hop: int) -> bool:
+    """
+    pre: 0 <= head_hops <= 3 and 0 <= get_hops <= 3 and 0 <= max_redirects <= 2 and -1 <= bad_hop <= 3
+    post: _
+    """
+    a = {"head_ok": head_ok, "has_cl": True, "declared": 2, "delivered": 2, "chunk": 2, "cap": 8,
+         "head_hops": head_hops, "get_hops": get_hops, "max_redirects": max_redirects, "bad_hop": bad_hop}
+    return _fetch_verdict(a) is None
